@@ -153,16 +153,33 @@ def run(ctx):
         shape = rng.choice(['rect', 'circle', 'ellipse', 'line'])
         x1, y1, x2, y2 = gen_box(rng, dyadic=True, square=(shape == 'circle'))
         els = []; spell = []
+        # the same translation on every spelling, written as dxy shorthand or dx / dy longhand (dx != dy mostly)
+        ddx = ddy = 0.0
+        if rng.chance(0.6):
+            ddx = rng.range(-40, 40) / 4.0; ddy = rng.range(-40, 40) / 4.0
+            if rng.chance(0.2): ddx = 0.0
+            elif rng.chance(0.2): ddy = 0.0
         for px in PAIRS:
             for py in PAIRS:
                 if not quick or rng.chance(0.5):
                     attrs = [axis_attrs(shape, 'x', q, x1, x2, rng) for q in px] + [axis_attrs(shape, 'y', q, y1, y2, rng) for q in py]
                     sn = {}; attrs = [sn.setdefault(k, (k, v)) for k, v in attrs if k not in sn]
+                    if ddx or ddy:
+                        if ddx and ddy and rng.chance(0.5):
+                            attrs.append(('dxy', fmt(ddx) + rng.choice([' ', ',', ', ']) + fmt(ddy)))
+                        elif ddx == ddy and rng.chance(0.5):
+                            attrs.append(('dxy', fmt(ddx)))
+                        else:
+                            if ddx or rng.chance(0.5): attrs.append(('dx', fmt(ddx)))
+                            if ddy or rng.chance(0.5): attrs.append(('dy', fmt(ddy)))
                     if rng.chance(0.5):
                         attrs = shorthand(attrs, rng)
+                    else:
+                        rng.shuffle(attrs)
                     els.append(xmlcanon.el(shape, attrs)); spell.append(attrs)
         xml = '<svg>' + ''.join(els) + '</svg>'
-        docs.append((doc_case('d%d' % di, xml, {'add_auto_styles': False}), shape, (x1, y1, x2, y2), spell))
+        docs.append((doc_case('d%d' % di, xml, {'add_auto_styles': False}), shape, (x1 + ddx, y1 + ddy, x2 + ddx, y2 + ddy), spell))
+        dist['doc_with_dxy'] = dist.get('doc_with_dxy', 0) + (1 if ddx or ddy else 0)
     dres = lib.run_impl([d[0] for d in docs])
     for c, shape, box, spell in docs:
         st['evaluations'] += 1; st['distinct_nontrivial'] += 1
